@@ -57,7 +57,7 @@ def _line(draw):
     elif k == "l2url":
         f = ["h" + desc, draw(st.sampled_from(["URL:http://www.example.org/", "/URL:https://example.org/a?b=c", "URL:ftp://ftp.example.org/pub",
                                            "URL:mailto:a@example.org", "URL:news:comp.infosystems.gopher", "URL:tel:+15551234",
-                                           "URL:x"]))]
+                                           "URL:", "URL:x"]))]
     elif k == "l3":
         f = [t + desc, "/" + draw(seg), draw(st.sampled_from(["other.example", "gopher.floodgap.com"]))]
     elif k == "l4":
